@@ -621,6 +621,7 @@ func diffLines(a, b string) string {
 type stats struct {
 	scenarios, ops, open, nemesis, restarts, decided, unknown int
 	droppedProposals                                          int // ... of which carried a forwarded client command
+	bigChecked                                                int // large values (up to 900 KB) read back from a node after page-wise catch-up and replay
 	droppedResponses                                          int // peer-to-peer POSTs delivered whose response the lossy-posts nemesis dropped
 	cutoffAcks                                                int // operations a cut-off former leader still acknowledged (reads, if it serves them itself)
 	leaderTerms                                               int // (term, leader) announcements read from the nodes' raft logs
@@ -1182,6 +1183,7 @@ func main() {
 		extra("slowdisk", o.Pick(2, 6), func(idx int, local *stats) string { return scenarioSlowDisk(o, idx, local) })
 		extra("storm", o.Pick(1, 3), func(idx int, local *stats) string { return scenarioStorm(o, idx, local, "c08") })
 		extra("deposed-tail", o.Pick(2, 6), func(idx int, local *stats) string { return scenarioDeposedTail(o, idx, local, "c08") })
+		extra("biglog", o.Pick(1, 4), func(idx int, local *stats) string { return scenarioBigLog(o, idx, local) })
 		for i, cs := range cases {
 			if *fOnly != "" && !strings.Contains(cs.regime+":"+cs.seam, *fOnly) {
 				continue
@@ -1274,6 +1276,7 @@ func main() {
 			"leader_announcements_read_from_raft_logs":           st.leaderTerms,
 			"peer_posts_delivered_with_response_dropped":         st.droppedResponses,
 			"forwarded_commands_delivered_with_response_dropped": st.droppedProposals,
+			"large_values_read_back_after_paged_replay":          st.bigChecked,
 			"operations_acknowledged_by_a_cut_off_former_leader": st.cutoffAcks,
 			"nodes_started_again_after_a_listener_bind_error":    cluster.BindRestarts.Load(),
 			"histories_decided_by_porcupine":                     st.decided,
@@ -1312,6 +1315,7 @@ func merge(a, b *stats) {
 	a.cutoffAcks += b.cutoffAcks
 	a.droppedResponses += b.droppedResponses
 	a.droppedProposals += b.droppedProposals
+	a.bigChecked += b.bigChecked
 	for k, v := range b.kinds {
 		a.kinds[k] += v
 	}
